@@ -454,6 +454,45 @@ def check(desc, ex):
                 viol('C13.c', 'fdt-lists-expired', 'Read-FDT of %s at t=%.2f still lists %s whose registration ended (timeline %r)' % (bb_label, t, fd_label, T.regs[-3:]))
             if st == 'served' and fd_label not in listed and not faulty:
                 viol('C13.b', 'fdt-misses-live', 'Read-FDT of %s at t=%.2f does not list %s although its registration is in force (timeline %r)' % (bb_label, t, fd_label, T.regs[-3:]))
+    # --- C13.c (tight, sound for ANY grace value): a Read-FDT-Ack declares, per entry, the seconds remaining before the BBMD
+    # purges it; once that time has passed without a new registration the entry must be neither listed nor served
+    EPS_P = 0.3
+    for bb_label in sorted(set(ip_to_label.get(a[2][0]) for a in acks)):
+        if bb_label is None:
+            continue
+        promise = {}        # fd label -> deadline
+        my_acks = [(t, fdt) for (seq, t, src, fdt) in acks if ip_to_label.get(src[0]) == bb_label]
+        regs_at = {fd: sorted(r[0] for r in T.regs if r[2] == bb_label) for fd, T in tl.items()}
+        fwd = []
+        for f in w.tx:
+            if f['node'] == bb_label:
+                v = wire.decode_bvll(f['octets'])
+                if v is not None and v['fn'] == wire.BV_FORWARDED:
+                    fwd.append((f['t'], f['dst']))
+        for (t, fdt) in sorted(my_acks, key=lambda x: x[0]):
+            listed_now = {}
+            for (ip, ttl, rem) in fdt:
+                fd = ip_to_label.get(ip[0])
+                if fd in tl:
+                    listed_now[fd] = rem
+            for fd, (deadline, t_decl, rem_decl) in list(promise.items()):
+                renewed = any(t_decl - 1e-6 <= r <= t + 1e-6 for r in regs_at.get(fd, []))
+                if renewed:
+                    del promise[fd]
+                    continue
+                if fd in listed_now and t > deadline:
+                    viol('C13.c', 'listed-beyond-declared-remaining', 'Read-FDT of %s at t=%.2f still lists %s although at t=%.2f it declared only %d s remaining for it and no registration arrived since'
+                         % (bb_label, t, fd, t_decl, rem_decl))
+            for fd, rem in listed_now.items():
+                if fd not in promise or any(promise[fd][1] - 1e-6 <= r <= t + 1e-6 for r in regs_at.get(fd, [])):
+                    promise[fd] = (t + rem + EPS_P, t, rem)
+        for fd, (deadline, t_decl, rem_decl) in promise.items():
+            nxt = min([r for r in regs_at.get(fd, []) if r >= t_decl - 1e-6] or [1e18])
+            fd_ip = ipstr(Address(nodes[fd]['addr']).addrTuple)
+            late = [tf for (tf, dst) in fwd if dst == fd_ip and deadline < tf < nxt]
+            if late:
+                viol('C13.c', 'served-beyond-declared-remaining', 'BBMD %s forwarded to %s at t=%.2f although at t=%.2f it declared only %d s remaining for it and no registration arrived since'
+                     % (bb_label, fd, late[0], t_decl, rem_decl))
     # --- C13.d fault-free: a registered FD renews in time (registrations at the BBMD never more than TTL+EPS apart)
     if not faulty:
         for fd_label, T in tl.items():
@@ -502,7 +541,40 @@ def execute_desc(desc):
 
 # ------------------------------------------------------------------ generator
 
+def gen_expiry_race(seed, idx):
+    """several foreign devices on ONE BBMD register once with short TTLs and then fall silent (crash); the table is read and a
+    broadcast is originated every quarter second while the entries run out one after the other"""
+    rng = rng_for(seed, 'C13x', idx)
+    subnets = [{'name': 'sub0', 'router': '10.0.0.1/24'}, {'name': 'fsub', 'router': '10.9.0.1/24'}]
+    nodes = [{'label': 'B0', 'kind': 'bbmd', 'addr': '10.0.0.2/24', 'subnet': 'sub0', 'bdt': ['10.0.0.2/32:%d' % PORT]},
+             {'label': 'N0_0', 'kind': 'simple', 'addr': '10.0.0.3/24', 'subnet': 'sub0'}]
+    events = []
+    nfd = rng.randint(2, 4)
+    t = 0.2
+    tmax = 0.0
+    tok = 0
+    for k in range(nfd):
+        ttl = rng.choice([1, 1, 2, 2, 3, 4, 5])
+        nodes.append({'label': 'F%d' % k, 'kind': 'foreign', 'addr': '10.9.0.%d/24' % (k + 2), 'subnet': 'fsub'})
+        events.append({'t': round(t, 3), 'ev': 'register', 'node': 'F%d' % k, 'bbmd': 'B0', 'ttl': ttl})
+        events.append({'t': round(t + 0.1, 3), 'ev': 'crash', 'node': 'F%d' % k})
+        tmax = max(tmax, t + ttl + 8)
+        t += rng.choice([0.13, 0.29, 0.5, 1.0, 1.37])
+    x = 0.6 + rng.random() * 0.2
+    while x < tmax:
+        events.append({'t': round(x, 3), 'ev': 'read_fdt', 'bbmd': 'B0'})
+        tok += 1
+        events.append({'t': round(x + 0.011, 3), 'ev': 'bcast', 'node': 'N0_0', 'payload': (bytes([0x01, 0x00, 0x10, 0x04]) + tok.to_bytes(3, 'big')).hex()})
+        x += 0.25
+    events.sort(key=lambda e: e['t'])
+    return {'prop': 'C13', 'seed': H(seed, 'C13xrun', idx) & 0x7fffffff,
+            'layout': {'subnets': subnets, 'nodes': nodes, 'raw': {'addr': '10.9.0.250/24', 'subnet': 'fsub'}},
+            'events': events, 'horizon': round(tmax + 2, 1), 'faults': None, 'latency': rng.choice([0.0, 0.001]), 'jitter': 0.0, 'race': True}
+
+
 def gen_desc(seed, idx):
+    if idx % 8 == 7:
+        return gen_expiry_race(seed, idx)
     rng = rng_for(seed, 'C13', idx)
     nsub = rng.randint(1, 5)
     subnets = []
